@@ -50,7 +50,12 @@ class C13(Prop):
                 scale = 1.0 if rng.random() < 0.3 else 2.0 ** -rng.randint(1, 24)      # every order of magnitude down to 6e-8: derived volumes cross any absolute threshold
                 ints = False
                 if shape == "random" and rng.random() < 0.3:
-                    P = [[float(rng.randint(0, 6)) for _ in range(d)] for _ in range(npts)]; ints = True; scale = 1.0
+                    for _ in range(50):
+                        P = [[float(rng.randint(0, 6)) for _ in range(d)] for _ in range(npts)]
+                        Pa = np.array(P)
+                        if np.linalg.matrix_rank(Pa - Pa.mean(axis=0)) == d:       # a flat cloud has no interior to sample from: outside the property
+                            break
+                    ints = True; scale = 1.0
                 cases.append({"entry": "function", "P": P, "n": nn, "engine": engine, "seed": seed, "scale": scale, "ints": ints,
                               "kind": "cloud/%dd/%s/%s/n%d%s%s" % (d, shape, engine, nn, "" if scale == 1.0 else "/scaled", "/int" if ints else "")})
             else:
